@@ -643,7 +643,8 @@ LzGetRacy(t, ins, me) ==
                                    !.lz[z].wt = t, !.lz[z].wclk = ob.lzw[t]]
                /\ LzBase(t, me) /\ Ret(t, ob.lzmine[t])
        /\ Adv(t) /\ NoRace /\ UNCHANGED cells
-LzGet(t, ins, me) == IF ins.k = "yield" THEN LzGetRacy(t, ins, me) ELSE LzGetSimple(t, ins, me)
+\* k = "yield" / "rmw": the initialiser contains a scheduling point (yield_now / an RMW on an atomic nobody reads)
+LzGet(t, ins, me) == IF ins.k \in {"yield", "rmw"} THEN LzGetRacy(t, ins, me) ELSE LzGetSimple(t, ins, me)
 \* read the cell that lives inside the published instance (written by its initialiser) through the
 \* reference obtained by the preceding get: ordered after that write iff the get handed over the
 \* publisher's view
